@@ -2,6 +2,7 @@
 from ..core import *
 from .. import harness, gen, pyref, corr
 from ..curve import *
+from .. import surface
 
 VO = ['Props/C08.vo']
 FILES = ['Props/C08.v', 'Props/C03.v', 'Proofs/Codec.v', 'Proofs/Projective.v']
@@ -61,5 +62,8 @@ def search(ctx, scale, hints):
                 fails.append(('equality %s but encodings %s / %s (build %s)' % (out[j], out[j + 1], out[j + 2], b), {'build': b, 'script': lines[j:j + 3], 'output': out[j:j + 3]}, {'class': 'eq_vs_enc', 'build': b}))
     return fails
 
+def always(ctx, scale):
+    return surface.c08_printers(ctx, Pool('ark', ctx.rng.fork('surf'), n_rand=3), scale)
+
 def run_check(ctx):
-    run_property(ctx, 'Props.C08', VO, FILES, build_scripts, search, 'C08 (equality/hash/identity coherence) is no longer shown to hold')
+    run_property(ctx, 'Props.C08', VO, FILES, build_scripts, search, 'C08 (equality/hash/identity coherence) is no longer shown to hold', always=always)
